@@ -599,6 +599,41 @@ def c05_evict_predicate(ctx):
     return q.result()
 
 
+def c10_suppressed_ptr_no_additionals(ctx):
+    q = Q("c10_suppressed_ptr_no_additionals", ["DnsOutgoing::add_answer_with_additionals"],
+          "every path of add_answer_with_additionals; the verdict of add_answer (suppressed or not) arbitrary", ["calls are opaque; only their order and the use of add_answer's verdict are checked"])
+    f = ctx.funcs[ctx.fn("::add_answer_with_additionals")]
+    ex = Explorer(ctx.funcs, ctx.consts, max_paths=600)
+    paths = [p for p in ex.explore(f.name) if p.outcome == "return"]
+    n_sup, n_ans = 0, 0
+    for i, p in enumerate(paths):
+        ev = p.events
+        k = [j for j, e in enumerate(ev) if e[0] == "call" and "add_answer" in e[1].split("::")[-1] and "additional" not in e[1]]
+        addi = [j for j, e in enumerate(ev) if e[0] == "call" and e[1].split("::")[-1].startswith("add_additional_answer")]
+        if not k:
+            if addi:
+                q.fail.append(("additionals are added although no PTR answer was attempted", f"path {i}"))
+            continue
+        rets = [e for e in ev[k[0]:] if e[0] == "ret" and "add_answer" in e[1].split("::")[-1] and "additional" not in e[1]]
+        if not rets or not isinstance(rets[0][2], BoolV):
+            q.unknown.append(f"path {i}: verdict of add_answer not found")
+            continue
+        added = rets[0][2].e
+        if any(j < k[0] for j in addi):
+            q.fail.append(("an additional record is added before the PTR answer was decided", f"path {i}"))
+        after = [j for j in addi if j > k[0]]
+        if after:
+            n_ans += 1
+            q.valid(p.cond, added, f"path {i}: additionals only when the PTR answer was really added (not suppressed)")
+        else:
+            n_sup += 1
+    if n_sup == 0 or n_ans == 0:
+        q.unknown.append(f"expected a suppressed path without additionals and an answered path with additionals (found {n_sup}/{n_ans})")
+    else:
+        q.nontrivial += 2
+    return q.result()
+
+
 # ---------------------------------------------------------------------------------------------
 # C07: probe clock
 # ---------------------------------------------------------------------------------------------
@@ -1130,7 +1165,7 @@ def c07_reannounce_delay(ctx):
 
 SPECS = {
     "C11": [c11_new_lifetime, c11_predicates, c11_refresh_schedule, c11_reset_restarts, c11_cache_flush_rule],
-    "C10": [c10_update_ttl, c10_known_answer_filter],
+    "C10": [c10_update_ttl, c10_known_answer_filter, c10_suppressed_ptr_no_additionals],
     "C05": [c05_reset_restores, c05_verify_deadline, c05_verify_shortens_only, c05_evict_predicate],
     "C07": [c07_probe_clock, c07_reannounce_delay],
     "C12": [c12_poll_timeout, c12_ipcheck_rearm, c12_hostname_timeout_timer, c12_conflict_probe_timer, c12_tiebreak_retry_timer, c11_cache_flush_rule, c05_verify_deadline],
